@@ -382,3 +382,15 @@ func Enumerate[I any](t *testing.T, property, name, rule string, items []I, chec
 		st.Case(in, nt, classes)
 	}
 }
+
+// ReplayMain is the body of every package's TestReplay: it replays $VERIF_REPLAY without rapid; a failing
+// test means the saved case still violates its property.
+func ReplayMain(t *testing.T) {
+	p := os.Getenv("VERIF_REPLAY")
+	if p == "" {
+		t.Skip("VERIF_REPLAY not set")
+	}
+	if err := Replay(t, p); err != nil {
+		t.Fatalf("REPLAY-VIOLATION %v", err)
+	}
+}
